@@ -122,7 +122,7 @@ KINT = [
     V('*ped', 'ENGRAVED_SYMBOLS'), V('*Xped', 'ENGRAVED_SYMBOLS'), V('*above', 'ENGRAVED_SYMBOLS'), V('*below2', 'ENGRAVED_SYMBOLS'),
     V('*cue', 'ENGRAVED_SYMBOLS'), V('*Xcue', 'ENGRAVED_SYMBOLS'), V('*tremolo', 'ENGRAVED_SYMBOLS'), V('*tuplet', 'ENGRAVED_SYMBOLS'),
     V('*rscale:1/2', 'ENGRAVED_SYMBOLS'), V('*ela', 'ENGRAVED_SYMBOLS'), V('*tstart', 'ENGRAVED_SYMBOLS'), V('*centered', 'ENGRAVED_SYMBOLS'),
-    V('*xywh-1:1,2,3,4', 'BOUNDING_BOXES'),
+    V('*xywh-1:1,2,3,4', 'BOUNDING_BOXES'), V('*xywh-1:5,6,30,40', 'BOUNDING_BOXES'),
     NULL_I,
 ]
 # key designations: category ambiguous between KEY_TOKEN and OTHER_CONTEXTUAL (DESIGN §2.1): only where the category is irrelevant
